@@ -849,6 +849,13 @@ impl TypeChecker {
         // We do a conservative check on the left hand side to see if it
         // could be an ip address. This (hopefully) does not conflict with the
         // integer implementation later.
+        // The special cases below have to check the left operand to find out
+        // whether they apply. If they don't, the operand has been checked
+        // against a fresh type variable, which is exactly what the arithmetic
+        // case does, so we keep the result instead of checking the operand a
+        // second time (that would make a chain of `+` or `/` exponential).
+        let mut checked_left: Option<(Type, bool)> = None;
+
         if let Div = op {
             let var = self.fresh_var();
             let ctx_left = ctx.with_type(var.clone());
@@ -877,6 +884,8 @@ impl TypeChecker {
                 self.type_info.function_calls.insert(span, function);
                 return Ok(diverges);
             }
+
+            checked_left = Some((var, diverges));
         };
 
         if let Add = op {
@@ -930,6 +939,8 @@ impl TypeChecker {
                     return Ok(diverges);
                 }
             }
+
+            checked_left = Some((var, diverges));
         }
 
         match op {
@@ -970,11 +981,16 @@ impl TypeChecker {
                 Ok(diverges)
             }
             Add | Sub | Mul | Div => {
-                let operand_ty = self.fresh_var();
+                let (operand_ty, mut diverges) = match checked_left {
+                    Some(checked) => checked,
+                    None => {
+                        let operand_ty = self.fresh_var();
+                        let ctx_left = ctx.with_type(operand_ty.clone());
+                        let diverges = self.expr(scope, &ctx_left, left)?;
+                        (operand_ty, diverges)
+                    }
+                };
                 let new_ctx = ctx.with_type(operand_ty.clone());
-
-                let mut diverges = false;
-                diverges |= self.expr(scope, &new_ctx, left)?;
 
                 if self.type_info.is_numeric_type(&operand_ty) {
                     diverges |= self.expr(scope, &new_ctx, right)?;
